@@ -151,10 +151,15 @@ def group_member_size(gdict) -> int:
     return n
 
 
+class TooMany(Exception):
+    """The walk would create more fields than the caller's cap (count amplification)."""
+
+
 class Walk:
     """Walk a definition over a payload (decode) -> ordered fields, consumed length, short flag."""
 
-    def __init__(self, pdict, payload: bytes, parsebf=True, special=None, counts=None):
+    def __init__(self, pdict, payload: bytes, parsebf=True, special=None, counts=None, maxfields=None):
+        self.maxfields = maxfields
         self.payload = payload
         self.parsebf = parsebf
         self.special = special
@@ -188,6 +193,8 @@ class Walk:
                     self._cfgval()
                 else:
                     n = self._count(numr, sub)
+                    if self.maxfields is not None and len(self.fields) + n * max(1, len(sub)) > self.maxfields:
+                        raise TooMany()
                     for i in range(n):
                         self._walk(sub, index + [i + 1])
             else:
